@@ -171,7 +171,7 @@ def build_request(method, eio, transport, sid, hdr, j):
     return '&'.join(parts), headers
 
 
-def issue(w, impl, method, query, headers, hdr):
+def issue(w, impl, method, query, headers, hdr, body=None):
     """Returns (status, exc, pending, handle)."""
     if hdr == 'both' and method == 'GET' and impl == 'async':
         s = w.ws(query, upgrade_headers=True)
@@ -189,7 +189,7 @@ def issue(w, impl, method, query, headers, hdr):
         if s.accepted:
             return 200, None, not s.done, s
         return s.status, None, not s.done, s
-    r = w.http(method, query, headers=headers)
+    r = w.http(method, query, headers=headers, body=body) if body is not None else w.http(method, query, headers=headers)
     w.run()
     if r.exc:
         return None, r.exc, False, r
@@ -217,7 +217,8 @@ def run_cases(impl, cfg, cases, out, stats):
             query, headers = build_request(method, eio, transport, sid, hdr, j)
             before = snapshot(w)
             ntable = set(w.live_sids())
-            status, exc, pending, h = issue(w, impl, method, query, headers, hdr)
+            status, exc, pending, h = issue(w, impl, method, query, headers, hdr,
+                                            body=b'4late' if (sidkind == 'closing' and method == 'POST') else None)
             stats['requests'] += 1
             stats[verdict] = stats.get(verdict, 0) + 1
             dirty = True
@@ -228,6 +229,12 @@ def run_cases(impl, cfg, cases, out, stats):
                      'site': (exc or {}).get('site', [''])[-1] if exc else ''},
                     '[%s cfg=%s] %s %s hdr=%s -> %s' % (impl, cfg, method, query, hdr, text),
                     {'impl': impl, 'cfg': cfg, 'case': list(case)}, weight=(0, len(query))))
+            if sidkind == 'closing' and method == 'POST' and verdict == 'any':
+                # whatever the status: the disconnect event of this session has fired, nothing it receives now becomes an event
+                late = [e[:3] for e in w.events if e[1] == sid and e[0] == 'message']
+                if late:
+                    V('event_for_a_session_being_closed', 'status %r and message events %r for a session whose disconnect event had already fired'
+                      % (status, late), 'sid=closing method=POST')
             if exc is not None:
                 if verdict != 'any':
                     V('exception_escaped', 'raised %s: %s at %s' % (exc['type'], exc['text'], exc['site']),
